@@ -94,6 +94,90 @@ theorem configurePool_cnt (s : State) (ps : List Pool) (hc : Coherent s) (ho : o
       exact hP (hm.symm.trans this)
   · rw [if_neg hcf] at hr; cases hr
 
+/-- a state change that keeps every pool routable, keeps the coherence and raises no pool's count (the configuration
+    itself may change: reload) -/
+structure Soft7 (s s' : State) : Prop where
+  wf : WFPools s.pools → WFPools s'.pools
+  coh : Coherent s → Coherent s'
+  cnt : Coherent s → ∀ P, P ≠ "" → cntp (mP P) s'.alloc ≤ cntp (mP P) s.alloc
+
+theorem Quiet7.soft {s s' : State} (q : Quiet7 s s') : Soft7 s s' :=
+  ⟨fun h => by rw [q.pools]; exact h, q.coh, fun _ => q.cnt⟩
+
+theorem Soft7.trans {a b c : State} (h1 : Soft7 a b) (h2 : Soft7 b c) : Soft7 a c :=
+  ⟨fun h => h2.wf (h1.wf h), fun h => h2.coh (h1.coh h),
+    fun hc P hP => Nat.le_trans (h2.cnt (h1.coh hc) P hP) (h1.cnt hc P hP)⟩
+
+theorem wfPools_sort (ps : List Pool) (h : WFPools ps) : WFPools (sortPools ps) :=
+  fun p hp => h p ((mem_sortPools p ps).mp hp)
+
+/-- ConfigurePool over coherent tables without pool orphans, whatever its outcome -/
+theorem configurePool_soft (s : State) (ps : List Pool) (ho : orphanFree s = true) :
+    (WFPools ps → WFPools s.pools → WFPools (configurePool s ps).1.pools) ∧ (Coherent s → Coherent (configurePool s ps).1) ∧
+    (Coherent s → ∀ P, P ≠ "" → cntp (mP P) (configurePool s ps).1.alloc ≤ cntp (mP P) s.alloc) := by
+  by_cases hok : (configurePool s ps).2 = true
+  · have rc := configurePool_ok' s ps hok
+    exact ⟨fun hwf _ => by rw [rc.pools]; exact wfPools_sort ps hwf, fun _ => rc.coherent,
+      fun hc P hP => configurePool_cnt s ps hc ho hok P hP⟩
+  · have hf : (configurePool s ps).2 = false := by simpa using hok
+    rw [configurePool_fail s ps hf]
+    have q := Quiet7.of_quiet (api_quiet s)
+    exact ⟨fun _ h => by rw [q.pools]; exact h, q.coh, fun _ => q.cnt⟩
+
+/-- a configuration reload whose new pools are routable, started without pool orphans, raises no pool's count -/
+theorem reload_soft (s : State) (pools : List Pool) (hwf : wfPoolsB pools = true) (ho : orphanFree s = true) :
+    Soft7 s (reload s pools).1 := by
+  have qa := Quiet7.of_quiet (api_quiet s)
+  unfold reload
+  dsimp only
+  split
+  · exact qa.soft
+  · split
+    · exact qa.soft
+    · have cp := configurePool_soft s.api.1 pools ho
+      have sf : Soft7 s (configurePool s.api.1 pools).1 :=
+        ⟨fun h => cp.1 (wfPools_of_bool pools hwf) (qa.soft.wf h), fun h => cp.2.1 (qa.coh h),
+          fun hc P hP => Nat.le_trans (cp.2.2 (qa.coh hc) P hP) (qa.cnt P hP)⟩
+      split
+      · exact sf
+      · refine sf.trans (Quiet7.soft ?_)
+        exact Quiet7.of_eq rfl rfl rfl rfl
+
+/-- a process restart without pool orphans raises no pool's count -/
+theorem restart_soft (s : State) (ho : orphanFree s = true) : Soft7 s (restart s).1 := by
+  have qb : Quiet7 s (restartBase s) := Quiet7.of_eq rfl rfl rfl rfl
+  have cp := configurePool_soft (restartBase s) s.pools ho
+  unfold restart
+  dsimp only
+  exact ⟨fun h => cp.1 h h, fun h => cp.2.1 (qb.coh h), fun hc P hP => cp.2.2 (qb.coh hc) P hP⟩
+
+/-- an administrator's reservation / its removal: a record without pool, nothing else -/
+theorem adminReserve_q (F : Plugin.Facts) (s : State) (ip : IP) (text : String) (policy : Nat) :
+    Quiet7 s (step F s (.adminReserve ip text policy)).1 := by
+  dsimp only [step]
+  split
+  · exact Quiet7.refl s
+  · split
+    · exact Quiet7.refl s
+    · rename_i _ hfree
+      have hin : ip ∈ s.free := by simpa using hfree
+      refine ⟨rfl, fun hc => coherent_alloc ip _ hc hin rfl rfl rfl rfl, fun P hP => ?_⟩
+      have := cntp_set_le (mP P) s.alloc ip
+        { key := adminKey text, policy := policy, node := "", uid := 0, reserved := true, ts := s.clock }
+      have hm : mP P (adminKey text) = false := by
+        unfold mP adminKey; simpa using fun e => hP e
+      rw [hm] at this
+      exact this
+
+theorem adminUnreserve_q (F : Plugin.Facts) (s : State) (ip : IP) : Quiet7 s (step F s (.adminUnreserve ip)).1 := by
+  dsimp only [step]
+  split
+  · exact Quiet7.refl s
+  · rename_i r0 ha
+    split
+    · exact Quiet7.refl s
+    · exact ⟨rfl, fun hc => coherent_erase ip r0 hc ha rfl rfl rfl rfl, fun P _ => cntp_erase_le (mP P) s.alloc ip⟩
+
 /-! ### the pod-IP sync pass -/
 
 theorem allocateSpecific_eff (s : State) (key : Key) (ip : IP) (a : Attr) :
